@@ -361,9 +361,6 @@ Proof.
   split; [exact HW|]. split.
   - exists r'. pose proof (g_pbh _ _ _ G) as Gph. destruct G.
     constructor; unfold U in *; gcbn; try assumption; try lia; try reflexivity; try congruence.
-    + split; [lia|]. auto.
-    + intros _ X. rewrite R6 in X. destruct (HpU X) as [Y|Y]; [exact Y|contradiction].
-    + rewrite R3, Tk in *. lia.
     + apply g_wt_setpc; [exact Gwt | rewrite Hpc; discriminate].
     + intros X. unfold head_bar in *. gcbn. apply Gph. congruence.
   - intros u. destruct (Z.eq_dec u t) as [->|Ne].
